@@ -281,7 +281,7 @@ func (tc *treeCtx) calibrate() error {
 				for _, t := range l.Topics {
 					topics = append(topics, common.HexToHash(t))
 				}
-				if m.Kind == MkBridgeCall {
+				if m.Kind == MkBridgeCall || m.Kind == MkBridgeTok {
 					// the event carries the bridge-call nonce, which depends on what ran before: identified by its topics
 					// (sender, refund, to — `to` is unique per marker)
 					tc.logIDs[logKey(m.Target, topics, nil)] = logBase + m.ID
@@ -711,13 +711,21 @@ func witnessRefusals(g *Gen) *Node {
 	root := &Node{Kind: NFrame, ID: g.id(), CallKind: lib.CALL, Addr: 0, End: "return"}
 	mk := func(k MarkerKind, claim uint64) *Node {
 		m := &Marker{ID: g.id(), Kind: k, Ctx: 0, Claim: claim}
+		if k == MkBridgeTok {
+			m.Pool = 1 // two tokens
+		}
+		if k == MkBridgeTokFail {
+			m.Pool = 2 // three tokens, the middle one is not registered
+		}
 		g.w.fill(m)
-		return &Node{Kind: NPCall, ID: m.ID, CallKind: lib.CALL, Caught: k != MkExecIBC, M: m}
+		return &Node{Kind: NPCall, ID: m.ID, CallKind: lib.CALL, Caught: k != MkExecIBC && k != MkBridgeTok, M: m}
 	}
 	root.Body = []*Node{
 		mk(MkFeeGone, 0),
 		mk(MkExecIBCClosed, g.w.ibcClosed[0]),
 		mk(MkExecIBC, g.w.ibcOpen[0]),
+		mk(MkBridgeTokFail, 0),
+		mk(MkBridgeTok, 0),
 		{Kind: NSStore, ID: g.id(), Slot: 1, Val: 1},
 	}
 	g.claimsIBC, g.claimsIBCClosed = 1, 1
